@@ -6,8 +6,8 @@
    Specifications: Css/WhitespaceSpec.v.  Proofs: Layout/FragmentProofs.v,
    Layout/PaginateProofs.v, Css/WhitespaceProofs.v, Layout/TextDrawProofs.v. *)
 From Verif Require Import Layout.Paginate Layout.PaginateSpec Layout.PaginateProofs.
-From Verif Require Import Layout.Fragment Layout.FragmentProofs.
-From Verif Require Import Css.Whitespace Css.WhitespaceSpec Css.WhitespaceProofs.
+From Verif Require Import Layout.Fragment Layout.FragmentProofs Layout.FragmentMore.
+From Verif Require Import Css.Whitespace Css.WhitespaceSpec Css.WhitespaceProofs Css.WhitespaceMore.
 From Verif Require Import Layout.TextDraw Layout.TextDrawProofs.
 From Coq Require Import List ZArith NArith Arith.
 Import ListNotations.
@@ -321,3 +321,34 @@ Theorem C02_cancelled_block_registration_iff : forall (U : Type) (text : list U)
   match registered with Some p => skipn p text = [] | None => True end.
 Proof. exact cancelled_block_registration_iff. Qed.
 Print Assumptions C02_cancelled_block_registration_iff.
+
+(* --- proof-extension round: ResumeStack.Equals (ms_equals) is an equivalence relation on
+   canonical stacks (reflexive, symmetric as a boolean function, transitive), and coincides
+   there with the structural decision procedure ms_eqb *)
+Theorem C02_resume_stack_equals_refl : forall r,
+  ms_canonical r = true -> ms_equals r r = true.
+Proof. exact ms_equals_refl_canonical. Qed.
+Print Assumptions C02_resume_stack_equals_refl.
+
+Theorem C02_resume_stack_equals_sym : forall r o,
+  ms_canonical r = true -> ms_canonical o = true -> ms_equals r o = ms_equals o r.
+Proof. exact ms_equals_sym_canonical. Qed.
+Print Assumptions C02_resume_stack_equals_sym.
+
+Theorem C02_resume_stack_equals_trans : forall r o p,
+  ms_canonical r = true -> ms_canonical o = true -> ms_canonical p = true ->
+  ms_equals r o = true -> ms_equals o p = true -> ms_equals r p = true.
+Proof. exact ms_equals_trans_canonical. Qed.
+Print Assumptions C02_resume_stack_equals_trans.
+
+Theorem C02_resume_stack_equals_agrees_eqb : forall r o,
+  ms_canonical r = true -> ms_canonical o = true -> ms_equals r o = ms_eqb r o.
+Proof. exact ms_equals_eqb_canonical. Qed.
+Print Assumptions C02_resume_stack_equals_agrees_eqb.
+
+(* --- proof-extension round: white-space processing never makes a text longer, in any of
+   the five modes (with C02_whitespace_preserves_non_space_text: only white space is removed) *)
+Theorem C02_whitespace_length_never_grows : forall m f t,
+  (length (fst (process_text m f t)) <= length t)%nat.
+Proof. exact process_text_length_le. Qed.
+Print Assumptions C02_whitespace_length_never_grows.
